@@ -105,6 +105,26 @@ def register(eng):
                 return some(tup(StrM(s[:i]), StrM(s[i + len(p):])))
         return none()
 
+    @model("str::lines")
+    def _(eng, a, c):
+        # std contract: split at '\n', a trailing '\r' of a line is removed, no empty last line
+        from models import list_iter
+        s = list(sbytes(a[0]))
+        lines, cur = [], []
+        for b in s:
+            if eng.decide(b == 10 if isinstance(b, int) else bv8(eng, b) == 10):
+                lines.append(cur); cur = []
+            else:
+                cur.append(b)
+        if cur:
+            lines.append(cur)
+        out = []
+        for ln in lines:
+            if ln and eng.decide(ln[-1] == 13 if isinstance(ln[-1], int) else bv8(eng, ln[-1]) == 13):
+                ln = ln[:-1]
+            out.append(StrM(ln))
+        return list_iter(out, False)
+
     @model("str::contains")
     def _(eng, a, c):
         s, p = sbytes(a[0]), pattern_bytes(a[1])
